@@ -78,34 +78,53 @@ func mkNum(vm *goja.Runtime, src string) numArg {
 	}
 }
 
-// run a script with a watchdog; returns (value, error string, panicked, hung)
+// run a script with a watchdog. A native that spins inside Go cannot be interrupted: the goroutine is abandoned
+// and the caller must switch to a fresh runtime (newVM).
+var hangs int
+
 func run(vm *goja.Runtime, script string) (res goja.Value, errs string, panicked bool, hung bool) {
-	done := make(chan struct{})
-	timer := time.AfterFunc(3*time.Second, func() {
-		select {
-		case <-done:
-		default:
-			hung = true
-			vm.Interrupt("watchdog")
-		}
-	})
-	defer timer.Stop()
-	func() {
-		defer func() {
-			if x := recover(); x != nil {
-				panicked = true
-				errs = fmt.Sprint(x)
+	type result struct {
+		v        goja.Value
+		errs     string
+		panicked bool
+	}
+	ch := make(chan result, 1)
+	go func() {
+		var r result
+		func() {
+			defer func() {
+				if x := recover(); x != nil {
+					r.panicked = true
+					r.errs = fmt.Sprint(x)
+				}
+			}()
+			v, err := vm.RunString(script)
+			if err != nil {
+				r.errs = err.Error()
 			}
+			r.v = v
 		}()
-		v, err := vm.RunString(script)
-		if err != nil {
-			errs = err.Error()
-		}
-		res = v
+		ch <- r
 	}()
-	close(done)
-	vm.ClearInterrupt()
-	return
+	select {
+	case r := <-ch:
+		return r.v, r.errs, r.panicked, false
+	case <-time.After(3 * time.Second):
+		hangs++
+		vm.Interrupt("watchdog")
+		return nil, "hang", false, true
+	}
+}
+
+func newVM() *goja.Runtime {
+	vm := goja.New()
+	new(require.Registry).Enable(vm)
+	buffer.Enable(vm)
+	if _, err := vm.RunString(`function __cls(e){ return (e instanceof RangeError) ? 2 : (e instanceof TypeError) ? 1 : 3 }
+function __cp(s){ return Array.from(s, function(c){ return c.codePointAt(0) }) }`); err != nil {
+		panic(err)
+	}
+	return vm
 }
 
 func main() {
@@ -119,13 +138,7 @@ func main() {
 	}
 	out := lib.NewOutput("C11")
 	r := lib.NewRand(lib.Seed())
-	vm := goja.New()
-	new(require.Registry).Enable(vm)
-	buffer.Enable(vm)
-	if _, err := vm.RunString(`function __cls(e){ return (e instanceof RangeError) ? 2 : (e instanceof TypeError) ? 1 : 3 }
-function __cp(s){ return Array.from(s, function(c){ return c.codePointAt(0) }) }`); err != nil {
-		panic(err)
-	}
+	vm := newVM()
 
 	genBytes := func() ([]byte, bool) {
 		k := r.Intn(14)
@@ -183,7 +196,16 @@ function __cp(s){ return Array.from(s, function(c){ return c.codePointAt(0) }) }
 	bytesOf := func(v goja.Value) []byte { return append([]byte{}, buffer.Bytes(vm, v)...) }
 	rangeArgs := []string{"0", "1", "-1", "2", "3", "5", "100", "-100", "undefined", "NaN", "1.9", "-0.5", `"2"`, "null", "9223372036854775807", "-9223372036854775808", "1e30", "Infinity", "-Infinity", "{}"}
 
+	lastHangs := 0
 	for c := 0; c < n; c++ {
+		if hangs != lastHangs { // a native is still spinning in the old runtime: abandon it
+			lastHangs = hangs
+			vm = newVM()
+			if hangs >= 4 {
+				out.Notes = append(out.Notes, "stopped early: 4 calls hung (each leaves a spinning goroutine)")
+				break
+			}
+		}
 		e := r.Pick(encs)
 		if r.Chance(4) {
 			e = r.Pick(badEncs)
